@@ -93,6 +93,7 @@ def gen_decl(rnd, k, opts=None):
                             bind=(["%sIF%d" % (P, i)] if i in binds else []), **{"async": False})
         else:
             provs[i] = dict(kind="fn", fn="New%sT%d" % (P, i), requires=req, provides=prv, fallible=fall[i], node=i,
+                            errtype=("%sErr" % P if rnd.random() < 0.25 else "error"),
                             bind=(["%sIF%d" % (P, i)] if i in binds else []), **{"async": asyncs[i]})
     order = list(range(n))
     rnd.shuffle(order)
@@ -405,6 +406,8 @@ def go_type_decls(d):
                 note(f[1])
     note(d["ret"])
     out = []
+    if any(p.get("errtype", "error") != "error" for p in d["provs"]):
+        out.append("type %sErr = error\n" % P)
     structs = {p["type"].lstrip("*"): p for p in d["provs"] if p["kind"] == "struct"}
     for base in sorted(seen):
         if base in structs:
@@ -447,14 +450,17 @@ def render_provider(d, i, p):
         t = p["provides"][0][0]
         return "var %s = &%s{S: \"V:%s\"}\n" % (p["var"], t.lstrip("*"), p["var"])
     params = ", ".join("p%d %s" % (q, t) for q, t in enumerate(p["requires"]))
-    rets = [g[0] for g in p["provides"]] + (["error"] if p["fallible"] else [])
+    errty = p.get("errtype", "error")
+    rets = [g[0] for g in p["provides"]] + ([errty] if p["fallible"] else [])
     args = ", ".join(term_expr(t, "p%d" % q) for q, t in enumerate(p["requires"]))
     body = ["\th := verifrt.Enter(%s, []string{%s})\n" % (json.dumps(p["fn"]), args)]
     zero = []
     for g in p["provides"]:
         zero.append("nil" if g[0].startswith("*") else g[0] + "{}")
     if p["fallible"]:
-        body.append("\tif err := h.Exit(true); err != nil { return %s }\n" % ", ".join(zero + ["err"]))
+        ctxs = [q for q, t in enumerate(p["requires"]) if t == CTX]
+        call = "h.ExitCtx(p%d, true)" % ctxs[0] if ctxs else "h.Exit(true)"
+        body.append("\tif err := %s; err != nil { return %s }\n" % (call, ", ".join(zero + ["err"])))
     else:
         body.append("\t_ = h.Exit(false)\n")
     vals = []
